@@ -163,7 +163,8 @@ pub(crate) fn lex_between<'a>(
             break;
         };
         if first_char.is_whitespace() {
-            offset += 1;
+            // Whitespace may be a multi-byte character (e.g. U+00A0).
+            offset += first_char.len_utf8();
             continue;
         }
 
@@ -359,26 +360,28 @@ pub(crate) fn lex_between<'a>(
             offset += variable_match.end();
         } else {
             let (line_number, column) = lp.from_offset(offset);
+            // The unrecognized character may be more than one byte.
+            let char_len = first_char.len_utf8();
 
             errors.push(ParseError::Invalid {
                 position: Position {
                     start_offset: offset,
-                    end_offset: offset + 1,
+                    end_offset: offset + char_len,
                     line_number: line_number.as_usize(),
                     end_line_number: line_number.as_usize(),
                     column,
-                    end_column: column + 1,
+                    end_column: column + char_len,
                     path: Rc::clone(&vfs_path.path),
                     vfs_path: vfs_path.clone(),
                 },
                 message: ErrorMessage(vec![
                     msgtext!("Unrecognized syntax "),
-                    msgcode!("{}", &s[0..1]),
+                    msgcode!("{}", &s[0..char_len]),
                 ]),
                 notes: vec![],
             });
 
-            offset += 1;
+            offset += char_len;
         }
     }
 
@@ -645,6 +648,29 @@ mod tests {
         };
 
         assert!(lex(&vfs_path, "\n// 2").0.is_empty());
+    }
+
+    #[test]
+    fn test_lex_non_ascii() {
+        let vfs_path = VfsPathBuf {
+            path: Rc::new(PathBuf::from("__test.gdn")),
+            id: VfsId(1),
+        };
+
+        // Non-ASCII whitespace and unrecognized characters should not
+        // be split in the middle of a character.
+        let (tokens, errors) = lex(&vfs_path, "1 +\u{a0}2 \u{e9}");
+        assert_eq!(
+            tokens
+                .tokens
+                .iter()
+                .map(|token| token.text)
+                .collect::<Vec<_>>(),
+            vec!["1", "+", "2"]
+        );
+        assert_eq!(errors.len(), 1);
+        assert_eq!(errors[0].position().start_offset, 7);
+        assert_eq!(errors[0].position().end_offset, 9);
     }
 
     #[test]
